@@ -1,5 +1,6 @@
 import DimodModel.FeasOptions
 import DimodModel.Enumerate
+import Generated.FeasTable
 
 /-! Property C08 — the remaining report paths, as coded.
 
@@ -90,5 +91,32 @@ def exactSolve (m : Cqm) (atol rtol : Rat) (garbage : Nat → Nat → Bool) : Ex
       let rows := rowsOfCases (exactColumns m) cases
       let res := fromSamplesCqmTop 2 cases.length atol rtol garbage (evalObj m rows) (evalCons m rows)
       .result cases res.1 res.2
+
+end Feas
+
+namespace Feas
+open Generated.FeasTable
+
+/-! ### the branch tables extracted from the source (`Generated/FeasTable.lean`) -/
+
+def evalForm : VForm → Rat → Rat
+  | .act, a => a
+  | .negAct, a => -a
+  | .absAct, a => absR a
+
+/-- the member name of `dimod.sym.Sense` -/
+def senseName : Sense → String
+  | .eq => "Eq" | .ge => "Ge" | .le => "Le"
+
+/-- what an `if sense is Sense.X: violation = … elif …` chain computes: the first branch whose name is the constraint's sense;
+    `none` = no branch (the `else: raise RuntimeError`) or an expression the translator does not recognise -/
+def violationByTable (tbl : List (String × Option VForm)) (c : CEval) (r : Nat) : Option Rat :=
+  match tbl.find? (fun p => p.1 = senseName c.sense) with
+  | some (_, some f) => some (evalForm f (activity c r))
+  | _ => none
+
+/-- the documented defaults, as the binary64 values of the literals `1e-6`, `1e-8` -/
+def defaultRtol : Rat := (4722366482869645 : Rat) / 4722366482869645213696
+def defaultAtol : Rat := (3022314549036573 : Rat) / 302231454903657293676544
 
 end Feas
